@@ -411,9 +411,16 @@ def resize_image_to_macro_block(
     return image
 
 
+def _frame_number(frame_name: str) -> int:
+    """Returns the number of a frame file written by ``_save_frame``."""
+    return int(frame_name.removeprefix("frame_").removesuffix(".png"))
+
+
 def _load_images(frames_dir: str) -> list:
+    # Sorted by frame number, not by name: "frame_100.png" < "frame_11.png"
+    # as strings, which scrambled animations with 100 or more frames.
     frames = [
         os.path.join(frames_dir, frame)
-        for frame in sorted(os.listdir(frames_dir))
+        for frame in sorted(os.listdir(frames_dir), key=_frame_number)
     ]
     return [imageio.imread(frame) for frame in frames]
